@@ -43,6 +43,53 @@ def isDataEqual (d1 d2 : Data) : Bool :=
     | none => false
     | some kv2 => isKeyValueEqual e.2 kv2
 
+/-! ### The data path below `syncer.pull` (`pkg/cluster/op.go`)
+
+`client.Get` either fails (`EtcdResp.error`: context deadline, server down …) or returns the
+list of key-values in the range. `GetRaw` / `Get` / `GetRawPrefix` / `GetPrefix` and `syncer.pull`
+map that answer; the `Bool` component is `err != nil`. -/
+
+inductive EtcdResp
+  | error
+  | kvs (l : List KV)
+deriving Repr, DecidableEq
+
+/-- `cluster.GetRaw`: error ⇒ `(nil, err)`; no key ⇒ `(nil, nil)`; else `(resp.Kvs[0], nil)`. -/
+def getRaw : EtcdResp → Option KV × Bool
+  | .error => (none, true)
+  | .kvs [] => (none, false)
+  | .kvs (kv :: _) => (some kv, false)
+
+/-- `cluster.Get`: `if err != nil || kv == nil { return nil, err }`, else the value. -/
+def get (r : EtcdResp) : Option String × Bool :=
+  match getRaw r with
+  | (_, true) => (none, true)
+  | (none, false) => (none, false)
+  | (some kv, false) => (some kv.value, false)
+
+/-- `cluster.GetRawPrefix`: error ⇒ (empty map, err); else the map keyed by `string(kv.Key)`
+(a later entry with the same key overwrites; etcd never returns one). -/
+def getRawPrefix : EtcdResp → Data × Bool
+  | .error => ([], true)
+  | .kvs l => (l.map (fun kv => (kv.key, some kv)), false)
+
+/-- `cluster.GetPrefix`. -/
+def getPrefix : EtcdResp → List (String × String) × Bool
+  | .error => ([], true)
+  | .kvs l => (l.map (fun kv => (kv.key, kv.value)), false)
+
+/-- `syncer.pull(key, prefix)`: `none` = the pull failed (`pullCompareSend` returns early). -/
+def pull (pfx : Bool) (r : EtcdResp) : Option Data :=
+  if pfx then
+    match getRawPrefix r with
+    | (_, true) => none
+    | (d, false) => some d
+  else
+    match getRaw r with
+    | (_, true) => none
+    | (none, false) => some []
+    | (some kv, false) => some [(kv.key, some kv)]
+
 /-- Ghost-annotated state of one `run` goroutine. -/
 structure St where
   /-- number of writes applied to the store so far (environment) -/
